@@ -140,7 +140,7 @@ def run(ck):
         'global fixpoint) to panic/allocation sinks (indexing, slicing, vec!/with_capacity/resize, shifts, divisions, assert!/unwrap); '
         'a sink is accepted only under a dominating conditional on the same value with an escaping arm; (R2) GUARD — the checks the '
         'argument relies on (version byte, k<=S, architecture version, public-input count) dominate what they protect; (R3) CHECKED '
-        '— per-format point/scalar decoders reach their validators and never unwrap; (R4) ZKIR arity is validated by the only constructor. '
+        '(incl. the extended-domain bound computed with the same ceiling-log as EvaluationDomain::new asserts); (R3) CHECKED — per-format point/scalar decoders reach their validators and never unwrap; (R4) ZKIR arity is validated by the only constructor. '
         'Termination time and third-party decoder memory are not decided.')
     ck.rule('C16.R1', 'TAINT: no untrusted integer (decoded from bytes / decoded struct field / read from proof) reaches an index, slice, '
                       'allocation size, shift, division, assert! or unwrap without a dominating conditional on it that has an escaping arm')
